@@ -18,7 +18,7 @@
     ([P := fun _ => false] leaves "no block has time 0").
     [ctx_unused r0 steps]: the service module never hands the service context of the oracle
     request [r0] to another request (context ids are hashes of a counter in the service module). *)
-From Irismod Require Import Random.Model Random.Spec Random.Check Random.Proofs Random.Sound Random.Pass Random.PassAll.
+From Irismod Require Import Random.Model Random.Spec Random.Check Random.Proofs Random.Sound Random.Pass Random.PassAll Random.PassOracle.
 
 (** ** the value: a decimal in [0,1) with exactly 20 fractional digits
 
@@ -318,6 +318,25 @@ Proof.
 Qed.
 Print Assumptions model_passes_compressed_check.
 
+(** ** ... oracle-seeded requests included, under a well-formed service environment
+
+    [wf_env] is a syntactic condition on the history, the part of the real service module's
+    behaviour the outside-view clauses 7 and 8 rely on: every service context is named by at
+    most one oracle request, a request that is not oracle-seeded names none, and no seed
+    response is called back for a context that already received a response with a malformed
+    body (the service module completes a context's batch with its first response).  Then the
+    property side of the check - clauses 1 to 9, i.e. 7 (oracle: fulfilled when the seed
+    arrives) and 8 (oracle: dropped on failure / timeout / pause) too - reports nothing on the
+    model's own trace [model_trace_o], whose observations carry the service facts that
+    correspond to the callbacks ([facts_of]). *)
+Theorem model_passes_check_with_oracle :
+  forall (sha : hin -> Z) (steps : list step),
+    sane allP [] steps -> wf_env [] [] steps ->
+    exists corr,
+      check_from sha init pinit tinit (model_trace_o sha init tinit steps) 0 (-1) (-1) 0 false = (corr, -1, 0).
+Proof. exact model_passes_check_oracle_lemma. Qed.
+Print Assumptions model_passes_check_with_oracle.
+
 (** the hypotheses of [model_passes_check] hold of a history with two requesters due at one
     height, a requester asking again in a later block, and a far request *)
 Example plain_history_nonvacuous :
@@ -407,4 +426,31 @@ Proof.
   split; [eexists; split; [vm_compute; reflexivity|]; split; reflexivity|].
   split; [vm_compute; reflexivity|].
   eexists. eexists. split; [vm_compute; reflexivity|]. split; vm_compute; intros H; discriminate H.
+Qed.
+
+(** [wf_env] holds of the demo history (a seeded and a refused oracle request among plain ones),
+    and of one with a malformed response followed by a failure and a pause; on both the whole
+    checker, correspondence included, answers (-1, -1, 0) on the model's own trace *)
+Definition demo_oracle : list step :=
+  [ Req 1 1 true true 101 (Some 7); Req 2 1 true true 102 (Some 8); Req 3 1 true true 103 (Some 9);
+    Req 0 2 false true 100 None;
+    Begin 1700000000 1 []; Begin 1700000003 2 [7; 8; 9];
+    Calls [CallResp 7 CbBadBody; CallResp 8 CbFail]; Calls [CallState 9 true; CallResp 7 CbFail];
+    Begin 1700000004 2 []; Req 4 0 true true 104 (Some 10); Begin 1700000009 3 [10];
+    Calls [CallResp 10 (CbSeed 3)]; Begin 1700000011 3 [] ].
+
+Example wf_env_nonvacuous :
+  sane allP [] (demo_pre ++ demo_req :: demo_post) /\ wf_env [] [] (demo_pre ++ demo_req :: demo_post)
+  /\ sane allP [] demo_oracle /\ wf_env [] [] demo_oracle
+  /\ check_from toy_sha init pinit tinit
+       (model_trace_o toy_sha init tinit (demo_pre ++ demo_req :: demo_post)) 0 (-1) (-1) 0 false = (-1, -1, 0)
+  /\ check_from toy_sha init pinit tinit (model_trace_o toy_sha init tinit demo_oracle) 0 (-1) (-1) 0 false
+     = (-1, -1, 0)
+  /\ length (events toy_sha init demo_oracle) = 2%nat.
+Proof.
+  split; [simpl; intuition (try discriminate; try lia)|].
+  split; [simpl; intuition (try discriminate; try lia)|].
+  split; [simpl; intuition (try discriminate; try lia)|].
+  split; [simpl; intuition (try discriminate; try lia)|].
+  split; [vm_compute; reflexivity|]. split; [vm_compute; reflexivity|]. vm_compute. reflexivity.
 Qed.
